@@ -185,7 +185,9 @@ def run_impl(case):
     pol = model.policy
     pspace = pol.observation_space           # what the policy believes (images: channel-first)
     with th.no_grad():
-        for p in pol.parameters():
+        for pname, p in pol.named_parameters():
+            if "log_std" in pname:
+                continue              # a standard-deviation parameter, not a weight: exp(1000 * log_std_init) would be 0 or inf
             p.mul_(case["scale"])
     feats = []
     hooks = [m.register_forward_pre_hook(lambda mod, inp: feats.append(inp[0])) for m in pol.modules() if isinstance(m, BaseFeaturesExtractor)]
@@ -576,6 +578,74 @@ def judge(case, impl, vals):
     return probs
 
 
+# ---------------------------------------------------------------- create_mlp structure stream
+
+def mlp_grid():
+    out = []
+    for arch in ([], [8], [8, 4], [3, 3, 2]):
+        for output_dim in (-1, 0, 3):
+            for squash in (False, True):
+                for bias in (True, False):
+                    for npre in (0, 1):
+                        for npost in (0, 1, 2):
+                            out.append({"arch": arch, "out": output_dim, "squash": squash, "bias": bias, "npre": npre, "npost": npost})
+    return out
+
+
+def _mlp_worker(grid):
+    """the real create_mlp on the grid: every module as (kind, a, b, bias)"""
+    import torch as th
+    from stable_baselines3.common.torch_layers import create_mlp
+
+    res = []
+    for g in grid:
+        try:
+            mods = create_mlp(5, g["out"], g["arch"], activation_fn=th.nn.ReLU, squash_output=g["squash"], with_bias=g["bias"],
+                              pre_linear_modules=[th.nn.BatchNorm1d] * g["npre"], post_linear_modules=[th.nn.LayerNorm] * g["npost"])
+            row = []
+            for m in mods:
+                if isinstance(m, th.nn.Linear):
+                    row.append([2, m.in_features, m.out_features, m.bias is not None])
+                elif isinstance(m, th.nn.BatchNorm1d):
+                    row.append([1, m.num_features, 0, False])
+                elif isinstance(m, th.nn.LayerNorm):
+                    row.append([3, int(m.normalized_shape[0]), 0, False])
+                elif isinstance(m, th.nn.ReLU):
+                    row.append([4, 0, 0, False])
+                elif isinstance(m, th.nn.Tanh):
+                    row.append([5, 0, 0, False])
+                else:
+                    row.append([9, 0, 0, False])
+            res.append(row)
+        except Exception as ex:  # noqa: BLE001
+            res.append("exception " + repr(ex)[:200])
+    return res
+
+
+def mlp_stream(chk):
+    import multiprocessing as mp
+
+    grid = mlp_grid()
+    with mp.get_context("fork").Pool(1) as pool:
+        impl = pool.apply(_mlp_worker, (grid,))
+    exprs = [f"show_mlp 5 {coq_Z(g['out'])} {coq_list(g['arch'], coq_Z)} {coq_bool(g['squash'])} {coq_bool(g['bias'])} {coq_nat(g['npre'])} {coq_nat(g['npost'])}" for g in grid]
+    vals = common.coq_eval_many(chk.pid + "_mlp", HEADER, exprs, shard=150, procs=2)
+    probs = []
+    for g, im, mv in zip(grid, impl, vals):
+        if isinstance(im, str):
+            probs.append(("oracle-create-mlp-exception", f"create_mlp{g}: {im}"))
+            continue
+        got = [tuple(x) for x in im]
+        if (len(got) > 0 and got[-1][0] == 5) != g["squash"] or any(x[0] == 5 for x in got[:-1]):
+            probs.append(("oracle-mlp-tanh-iff-squash", f"create_mlp(net_arch={g['arch']}, output_dim={g['out']}, squash_output={g['squash']}) returns layer kinds {[x[0] for x in got]} "
+                                                        f"(5 = Tanh): the network must end with Tanh exactly when squash_output is set"))
+        if sum(1 for x in got if x[0] == 2) != len(g["arch"]) + (1 if g["out"] > 0 else 0):
+            probs.append(("oracle-mlp-linear-count", f"create_mlp(net_arch={g['arch']}, output_dim={g['out']}): {sum(1 for x in got if x[0] == 2)} Linear layers"))
+        if got != [tuple(x) for x in mv]:
+            probs.append(("model-correspondence-create-mlp", f"create_mlp{g}: impl layers {got}, model {mv}"))
+    return len(grid), probs
+
+
 def run_cases(chk, cases, procs=4):
     import multiprocessing as mp
 
@@ -609,11 +679,19 @@ def main():
     for i in range(n_cases):
         cases.append(gen_case(chk.rng, i))
     impls, results = run_cases(chk, cases)
-    hist = {"algo": {}, "obs": {}, "act": {}, "scale": {}, "trials": 0, "trial_kinds": {}, "rejected_inputs": 0, "squash": 0}
+    n_mlp, mlp_probs = mlp_stream(chk)
+    if mlp_probs:
+        oracle_bad = [sg for sg, _ in mlp_probs if sg.startswith("oracle-")]
+        sig = oracle_bad[0] if oracle_bad else mlp_probs[0][0]
+        chk.violation(sig, "; ".join(m for sg, m in mlp_probs if sg == sig)[:700], {"stream": "create_mlp", "problems": mlp_probs[:10],
+                      "correspondence": "torch_layers.create_mlp vs Model.Shapes.mlp_layers"}, found_input=bool(oracle_bad))
+    hist = {"mlp_structures": n_mlp, "pk_net_arch": {}, "algo": {}, "obs": {}, "act": {}, "scale": {}, "trials": 0, "trial_kinds": {}, "rejected_inputs": 0, "squash": 0}
     distinct = set()
     for c, im, probs in zip(cases, impls, results):
         for k in ("algo", "obs", "act", "scale"):
             hist[k][str(c[k])] = hist[k].get(str(c[k]), 0) + 1
+        na = (c.get("pk") or {}).get("net_arch", "8")
+        hist["pk_net_arch"][na] = hist["pk_net_arch"].get(na, 0) + 1
         if not im.get("error"):
             hist["trials"] += len(im["trials"])
             hist["squash"] += int(im["squash"])
